@@ -411,6 +411,9 @@ func assumptionsFor(prop string, w *World) []string {
 		"package-level variables that are never assigned outside their declaration are constants",
 		"termination is proved only for loops with a `decreases` clause",
 		"interface methods declared `pure` in contracts are deterministic functions of receiver and arguments",
+		"an opaque callee (neither inlined nor under contract) may change the pointees of pointer arguments and the contents of map/slice arguments unless the frame checker knows it not to; nothing else of the caller's state",
+		"slices.SortFunc orders its argument by a comparator proved to be a strict weak ordering (the sort algorithm itself is trusted); maps.Copy, maps.Clone, slices.Collect(maps.Keys/Values) have exact models",
+		"hash/fnv hashers are abstract states: which data enters a hash, and in which order, is modelled; the mixing function is uninterpreted",
 	}
 	// trusted / assumed contracts actually present
 	var trusted []string
